@@ -26,6 +26,8 @@ pub enum NetCmd {
     SetLoops(Vec<(usize, usize, usize, bool)>),
     /// (script only) direct assignment of the public map `Network.connect`: (into, infrom)
     SetConnect(Vec<(usize, usize)>),
+    /// (script only) `Network::set_activation(layer, activation)`
+    SetActivation(usize, Act),
 }
 
 #[derive(Clone, Debug)]
@@ -563,6 +565,11 @@ pub fn enc_cmd(t: &mut Tok, cmd: &NetCmd) {
                 push_n(t, *b);
             }
         }
+        NetCmd::SetActivation(i, a) => {
+            t.push(15);
+            push_n(t, *i);
+            t.push(a.code());
+        }
         NetCmd::LayerBackward(i, x, g) => {
             t.push(9);
             push_n(t, *i);
@@ -679,6 +686,9 @@ pub fn run_net_cmd(t: &mut Tok, n: &mut network::Network, cmd: &NetCmd) {
         }
         NetCmd::SetConnect(l) => {
             n.connect = l.iter().cloned().collect();
+        }
+        NetCmd::SetActivation(i, a) => {
+            n.set_activation(*i, a.to());
         }
         NetCmd::LayerBackward(i, x, g) => {
             let (ig, wg, bg) = match &n.layers[*i] {
